@@ -811,7 +811,16 @@ func (q *checker) bcheckWhile(n *a.While) error {
 		}
 	}
 
-	// Check the while condition.
+	// Check the while condition. It is evaluated at the top of every iteration,
+	// not just the first, so it can only rely on the pre and inv conditions, not
+	// on whatever else happens to be known on entry.
+	q.facts = q.facts[:0]
+	for _, o := range n.Asserts() {
+		if o.AsAssert().Keyword() == t.IDPost {
+			continue
+		}
+		q.facts.appendFact(o.AsAssert().Condition())
+	}
 	if _, err := q.bcheckExpr(n.Condition(), 0); err != nil {
 		return err
 	}
